@@ -69,8 +69,9 @@ def Plane.new (now : Int) : Plane := { cprTime0 := now, cprTime1 := now, timesta
 /-- `chrono::Duration::num_seconds` of `a - b`: truncation towards zero of milliseconds -/
 def numSeconds (a b : Int) : Int := Int.tdiv (a - b) 1000
 
-/-- `update_position` -/
-def Plane.updatePosition (env : Env) (p : Plane) (messageType cprForm : Nat) : Plane :=
+/-- the position `update_position` commits, if any: both slots of both coordinates filled,
+    receive times less than 10 whole seconds apart, same latitude zone, result in range -/
+def Plane.posDecode (p : Plane) (messageType cprForm : Nat) : Option (Rat × Rat) :=
   if p.cprLat0 ≠ 0 ∧ p.cprLat1 ≠ 0 ∧ p.cprLon0 ≠ 0 ∧ p.cprLon1 ≠ 0
       ∧ (numSeconds p.cprTime0 p.cprTime1).natAbs < 10 then
     let loc :=
@@ -79,135 +80,176 @@ def Plane.updatePosition (env : Env) (p : Plane) (messageType cprForm : Nat) : P
       else if 9 ≤ messageType ∧ messageType ≤ 18 then
         cprLocation p.cprLat0 p.cprLat1 p.cprLon0 p.cprLon1 cprForm 1
       else none
-    match loc with
-    | some (lat, lon) =>
-      if -90 ≤ lat ∧ lat ≤ 90 ∧ -180 ≤ lon ∧ lon ≤ 180 then
-        { p with lat := lat, lon := lon,
-                 distance := (match env.dist with
-                              | some d => some (d lat lon)
-                              | none => p.distance),
-                 positionTimestamp := some p.timestamp }
-      else p
-    | none => p
-  else p
+    loc.filter fun ll => -90 ≤ ll.1 ∧ ll.1 ≤ 90 ∧ -180 ≤ ll.2 ∧ ll.2 ≤ 180
+  else none
+
+/-- `update_position` -/
+def Plane.updatePosition (env : Env) (p : Plane) (messageType cprForm : Nat) : Plane :=
+  match p.posDecode messageType cprForm with
+  | some ll =>
+    { p with lat := ll.1, lon := ll.2,
+             distance := (match env.dist with
+                          | some d => some (d ll.1 ll.2)
+                          | none => p.distance),
+             positionTimestamp := some p.timestamp }
+  | none => p
+
+/-- the slot assignment of `amend_cpr` / `update_cpr`.
+    TRAP: `self.cpr_lat[cpr_form as usize]` (the flag is a single bit) -/
+def Plane.setCprSlot (p : Plane) (c : Nat × Nat × Nat) : Plane :=
+  { p with cprLat0 := if c.1 = 0 then c.2.1 else p.cprLat0,
+           cprLon0 := if c.1 = 0 then c.2.2 else p.cprLon0,
+           cprTime0 := if c.1 = 0 then p.timestamp else p.cprTime0,
+           cprLat1 := if c.1 = 0 then p.cprLat1 else c.2.1,
+           cprLon1 := if c.1 = 0 then p.cprLon1 else c.2.2,
+           cprTime1 := if c.1 = 0 then p.cprTime1 else p.timestamp }
 
 /-- store a CPR triple in its slot and try to decode (`amend_cpr` / `update_cpr`) -/
-def Plane.storeCpr (env : Env) (p : Plane) (messageType : Nat) (c : Nat × Nat × Nat) : Plane :=
-  let (form, lat, lon) := c
-  -- TRAP: `self.cpr_lat[cpr_form as usize]` (the flag is a single bit)
-  let p := if form = 0 then { p with cprLat0 := lat, cprLon0 := lon, cprTime0 := p.timestamp }
-           else { p with cprLat1 := lat, cprLon1 := lon, cprTime1 := p.timestamp }
-  p.updatePosition env messageType form
+def Plane.storeCpr (env : Env) (p : Plane) (messageType : Nat) (c : Option (Nat × Nat × Nat)) : Plane :=
+  match c with
+  | some c => (p.setCprSlot c).updatePosition env messageType c.1
+  | none => p
 
 /-- `(altitude as i32 + altitude_delta) as u32` -/
 def gnssFromDelta (altitude : Nat) (delta : Int) : Nat := (((altitude : Int) + delta) % 4294967296).toNat
+
+/-- the GNSS altitude a TC19 frame derives from the barometric one -/
+def gnssUpdate (cur : Option Nat) (altitude : Option Nat) (delta : Option Int) : Option Nat :=
+  match altitude, delta with
+  | some a, some d => some (gnssFromDelta a d)
+  | _, _ => cur
 
 -- default path: plane/from_downlink/*.rs ------------------------------------------------
 
 /-- `UpdateFromDownlink<Srt>` -/
 def Plane.amendSrt (p : Plane) (dl : Srt) : Plane :=
   if dl.icao.isSome then
-    let p := if dl.df = some 4 ∧ dl.altitude.isSome then { p with altitude := dl.altitude, altitudeSource := ' ' } else p
-    let p := if dl.df = some 5 ∧ dl.squawk.isSome then { p with squawk := dl.squawk } else p
-    if dl.df = some 11 then
-      match dl.capability with
-      | some v => { p with cap0 := v }
-      | none => p
-    else p
+    { p with
+      altitude := if dl.df = some 4 ∧ dl.altitude.isSome then dl.altitude else p.altitude,
+      altitudeSource := if dl.df = some 4 ∧ dl.altitude.isSome then ' ' else p.altitudeSource,
+      squawk := if dl.df = some 5 ∧ dl.squawk.isSome then dl.squawk else p.squawk,
+      cap0 := if dl.df = some 11 then dl.capability.getD p.cap0 else p.cap0 }
+  else p
+
+/-- `amend_from_ext_1_4` -/
+def Plane.amendExt14 (p : Plane) (dl : Ext) : Plane :=
+  { p with ais := if dl.ais.isSome then dl.ais else p.ais,
+           category := if dl.ais.isSome then dl.messageType else p.category }
+
+/-- `amend_from_ext_5_8` -/
+def Plane.amendExt58 (env : Env) (p : Plane) (dl : Ext) : Plane :=
+  ({ p with groundMovement := dl.groundMovement, altitude := dl.altitude, altitudeSource := chSup0,
+            track := dl.track, trackSource := dl.trackSource.getD ' ' }).storeCpr env dl.messageType.1 dl.cpr
+
+/-- `amend_from_ext_9_18` -/
+def Plane.amendExt918 (env : Env) (p : Plane) (dl : Ext) : Plane :=
+  ({ p with altitude := dl.altitude, altitudeSource := ' ',
+            surveillanceStatus := dl.surveillanceStatus.getD ' ' }).storeCpr env dl.messageType.1 dl.cpr
+
+/-- `amend_from_ext_19` -/
+def Plane.amendExt19 (p : Plane) (dl : Ext) : Plane :=
+  let st := dl.messageType.2
+  { p with vrate := dl.vrate, vrateSource := ' ',
+           altitudeGnss := gnssUpdate p.altitudeGnss p.altitude dl.altitudeDelta,
+           track := if st = 1 ∨ st = 2 then dl.track else p.track,
+           grspeed := if st = 1 ∨ st = 2 then dl.grspeed else p.grspeed,
+           trackSource := if st = 1 then chSub1 else if st = 2 then chSub2 else p.trackSource,
+           heading := if st = 3 ∨ st = 4 then dl.heading else p.heading,
+           headingSource := if st = 3 ∨ st = 4 then chSub3 else p.headingSource,
+           altitudeSource := if st = 3 ∨ st = 4 then '"' else p.altitudeSource }
+
+/-- `amend_from_ext_20_22` -/
+def Plane.amendExt2022 (p : Plane) (dl : Ext) : Plane :=
+  { p with altitudeGnss := dl.altitudeGnss, surveillanceStatus := dl.surveillanceStatus.getD ' ' }
+
+/-- `amend_from_ext_31` -/
+def Plane.amendExt31 (p : Plane) (dl : Ext) : Plane := { p with adsbVersion := dl.adsbVersion }
+
+/-- the `match dl.message_type.0` of `UpdateFromDownlink<Ext>` -/
+def Plane.amendExtTc (env : Env) (p : Plane) (dl : Ext) : Plane :=
+  let tc := dl.messageType.1
+  if 1 ≤ tc ∧ tc ≤ 4 then p.amendExt14 dl
+  else if 5 ≤ tc ∧ tc ≤ 8 then p.amendExt58 env dl
+  else if 9 ≤ tc ∧ tc ≤ 18 then p.amendExt918 env dl
+  else if tc = 19 then p.amendExt19 dl
+  else if 20 ≤ tc ∧ tc ≤ 22 then p.amendExt2022 dl
+  else if tc = 31 then p.amendExt31 dl
   else p
 
 /-- `UpdateFromDownlink<Ext>` -/
 def Plane.amendExt (env : Env) (p : Plane) (dl : Ext) : Plane :=
   if dl.icao.isSome then
-    let p := { p with lastTypeCode := dl.messageType.1, cap0 := dl.capability }
-    let tc := dl.messageType.1
-    if 1 ≤ tc ∧ tc ≤ 4 then
-      if dl.ais.isSome then { p with ais := dl.ais, category := dl.messageType } else p
-    else if 5 ≤ tc ∧ tc ≤ 8 then
-      let p := { p with groundMovement := dl.groundMovement, altitude := dl.altitude,
-                        altitudeSource := chSup0, track := dl.track,
-                        trackSource := dl.trackSource.getD ' ' }
-      match dl.cpr with
-      | some c => p.storeCpr env tc c
-      | none => p
-    else if 9 ≤ tc ∧ tc ≤ 18 then
-      let p := { p with altitude := dl.altitude, altitudeSource := ' ',
-                        surveillanceStatus := dl.surveillanceStatus.getD ' ' }
-      match dl.cpr with
-      | some c => p.storeCpr env tc c
-      | none => p
-    else if tc = 19 then
-      let p := { p with vrate := dl.vrate, vrateSource := ' ' }
-      let p := match dl.altitudeDelta, p.altitude with
-        | some d, some a => { p with altitudeGnss := some (gnssFromDelta a d) }
-        | _, _ => p
-      if dl.messageType.2 = 1 then { p with track := dl.track, grspeed := dl.grspeed, trackSource := chSub1 }
-      else if dl.messageType.2 = 2 then { p with track := dl.track, grspeed := dl.grspeed, trackSource := chSub2 }
-      else if dl.messageType.2 = 3 ∨ dl.messageType.2 = 4 then
-        { p with heading := dl.heading, headingSource := chSub3, altitudeSource := '"' }
-      else p
-    else if 20 ≤ tc ∧ tc ≤ 22 then
-      { p with altitudeGnss := dl.altitudeGnss, surveillanceStatus := dl.surveillanceStatus.getD ' ' }
-    else if tc = 31 then
-      { p with adsbVersion := dl.adsbVersion }
-    else p
+    Plane.amendExtTc env { p with lastTypeCode := dl.messageType.1, cap0 := dl.capability } dl
   else p
 
 /-- `UpdateFromDownlink<DF>`: stamps the row, then dispatches -/
 def Plane.updateFromDownlink (env : Env) (now : Int) (p : Plane) (dl : DFRec) : Plane :=
-  let p := { p with timestamp := now }
   match dl with
-  | .srt v => p.amendSrt v
-  | .ext v => p.amendExt env v
-  | .mds icao => match icao with
-    | some v => { p with icao := v }
-    | none => p
+  | .srt v => Plane.amendSrt { p with timestamp := now } v
+  | .ext v => Plane.amendExt env { p with timestamp := now } v
+  | .mds icao => { p with timestamp := now, icao := icao.getD p.icao }
 
 -- update path: plane/from_squitter/*.rs --------------------------------------------------
 
 /-- `update_from_bcast` -/
 def Plane.updateFromBcast (p : Plane) (m : Msg) (df : Nat) : Plane :=
-  let p := if df = 4 ∨ df = 20 then { p with altitude := Sq.altitude m df, altitudeSource := ' ' } else p
-  let p := if df = 5 ∨ df = 21 then { p with squawk := Sq.squawk m } else p
-  if df = 11 ∨ df = 17 then { p with cap0 := getCapability m } else p
+  { p with altitude := if df = 4 ∨ df = 20 then Sq.altitude m df else p.altitude,
+           altitudeSource := if df = 4 ∨ df = 20 then ' ' else p.altitudeSource,
+           squawk := if df = 5 ∨ df = 21 then Sq.squawk m else p.squawk,
+           cap0 := if df = 11 ∨ df = 17 then getCapability m else p.cap0 }
+
+/-- `update_cpr`'s filter on the format flag -/
+def cprChecked (m : Msg) : Option (Nat × Nat × Nat) := (cpr m).filter fun c => c.1 ≤ 1
+
+/-- `update_from_ext_1_4` -/
+def Plane.updateExt14 (p : Plane) (m : Msg) (tc st : Nat) : Plane :=
+  { p with ais := Sq.ais m, category := (tc, st) }
+
+/-- `update_from_ext_5_8` -/
+def Plane.updateExt58 (env : Env) (p : Plane) (m : Msg) (tc : Nat) : Plane :=
+  ({ p with groundMovement := Sq.groundMovement m, altitude := none, altitudeSource := chSup0,
+            track := groundTrack m, trackSource := ' ' }).storeCpr env tc (cprChecked m)
+
+/-- `update_from_ext_9_18` -/
+def Plane.updateExt918 (env : Env) (p : Plane) (m : Msg) (tc df : Nat) : Plane :=
+  ({ p with altitude := Sq.altitude m df, altitudeSource := ' ',
+            surveillanceStatus := Sq.surveillanceStatus m }).storeCpr env tc (cprChecked m)
+
+/-- the `(track, grspeed)` pair a TC19 frame of subtype `st` carries -/
+def velocityOf (env : Env) (m : Msg) (st : Nat) : Option Nat × Option Nat :=
+  trackAndGroundspeed env.atan2deg m (st = 2)
+
+/-- `update_from_ext_19` -/
+def Plane.updateExt19 (env : Env) (p : Plane) (m : Msg) (st : Nat) : Plane :=
+  { p with vrate := verticalRate m, vrateSource := ' ',
+           altitudeGnss := gnssUpdate p.altitudeGnss p.altitude (altitudeDelta m),
+           track := if st = 1 ∨ st = 2 then (velocityOf env m st).1 else p.track,
+           grspeed := if st = 1 ∨ st = 2 then (velocityOf env m st).2 else p.grspeed,
+           trackSource := if st = 1 then chSub1 else if st = 2 then chSub2 else p.trackSource,
+           heading := if st = 3 ∨ st = 4 then headingRaw m else p.heading,
+           headingSource := if st = 3 ∨ st = 4 then chSub3 else p.headingSource,
+           altitudeSource := if st = 3 ∨ st = 4 then '"' else p.altitudeSource }
+
+/-- `update_from_ext_20_22` -/
+def Plane.updateExt2022 (p : Plane) (m : Msg) : Plane :=
+  { p with altitudeGnss := Sq.altitudeGnss m, surveillanceStatus := Sq.surveillanceStatus m }
+
+/-- `update_from_ext_31` -/
+def Plane.updateExt31 (p : Plane) (m : Msg) : Plane := { p with adsbVersion := Sq.adsbVersion m }
+
+/-- the `match message_type` of `update_from_ext` -/
+def Plane.updateExtTc (env : Env) (p : Plane) (m : Msg) (df tc st : Nat) : Plane :=
+  if 1 ≤ tc ∧ tc ≤ 4 then p.updateExt14 m tc st
+  else if 5 ≤ tc ∧ tc ≤ 8 then p.updateExt58 env m tc
+  else if 9 ≤ tc ∧ tc ≤ 18 then p.updateExt918 env m tc df
+  else if tc = 19 then p.updateExt19 env m st
+  else if 20 ≤ tc ∧ tc ≤ 22 then p.updateExt2022 m
+  else if tc = 31 then p.updateExt31 m
+  else p
 
 /-- `update_from_ext` -/
 def Plane.updateFromExt (env : Env) (p : Plane) (m : Msg) (df : Nat) : Plane :=
-  let (tc, st) := getMessageType m
-  let p := { p with lastTypeCode := tc }
-  if 1 ≤ tc ∧ tc ≤ 4 then
-    { p with ais := Sq.ais m, category := (tc, st) }
-  else if 5 ≤ tc ∧ tc ≤ 8 then
-    let p := { p with groundMovement := Sq.groundMovement m, altitude := none, altitudeSource := chSup0,
-                      track := groundTrack m, trackSource := ' ' }
-    match (cpr m).filter fun c => c.1 ≤ 1 with
-    | some c => p.storeCpr env tc c
-    | none => p
-  else if 9 ≤ tc ∧ tc ≤ 18 then
-    let p := { p with altitude := Sq.altitude m df, altitudeSource := ' ',
-                      surveillanceStatus := Sq.surveillanceStatus m }
-    match (cpr m).filter fun c => c.1 ≤ 1 with
-    | some c => p.storeCpr env tc c
-    | none => p
-  else if tc = 19 then
-    let p := { p with vrate := verticalRate m, vrateSource := ' ' }
-    let p := match p.altitude, altitudeDelta m with
-      | some a, some d => { p with altitudeGnss := some (gnssFromDelta a d) }
-      | _, _ => p
-    if st = 1 then
-      let tg := trackAndGroundspeed env.atan2deg m false
-      { p with track := tg.1, grspeed := tg.2, trackSource := chSub1 }
-    else if st = 2 then
-      let tg := trackAndGroundspeed env.atan2deg m true
-      { p with track := tg.1, grspeed := tg.2, trackSource := chSub2 }
-    else if st = 3 ∨ st = 4 then
-      { p with heading := headingRaw m, headingSource := chSub3, altitudeSource := '"' }
-    else p
-  else if 20 ≤ tc ∧ tc ≤ 22 then
-    { p with altitudeGnss := Sq.altitudeGnss m, surveillanceStatus := Sq.surveillanceStatus m }
-  else if tc = 31 then
-    { p with adsbVersion := Sq.adsbVersion m }
-  else p
+  Plane.updateExtTc env { p with lastTypeCode := (getMessageType m).1 } m df (getMessageType m).1 (getMessageType m).2
 
 def sourceMark (v : Option Nat) : Char :=
   match v with
@@ -216,62 +258,82 @@ def sourceMark (v : Option Nat) : Char :=
   | some 3 => chSub3
   | _ => ' '
 
-/-- `update_from_mode_s` -/
-def Plane.updateFromModeS (p : Plane) (m : Msg) (relaxed : Bool) : Plane :=
-  let bds := bdsCode m
-  let p := if bds = (2, 0) then { p with ais := Sq.ais m } else p
-  let p := if bds = (3, 0) then { p with threatEncounter := Sq.threatEncounter m } else p
-  -- each stage returns (row, still undecided)
-  let st : Plane × Bool := (p, bds = (0, 0))
-  let st := if st.2 then
-      match isBds17 m with
-      | some r => ({ st.1 with cap1 := r }, false)
-      | none => st
-    else st
-  let st := if st.2 && (relaxed || st.1.cap1.bds40) then
-      match isBds40 m with
-      | some v => ({ st.1 with selectedAltitude := v.mcp.or v.fms,
-                               targetAltitudeSource := sourceMark v.source,
-                               barometricPressureSetting := v.baro }, false)
-      | none => st
-    else st
-  let st := if st.2 && (relaxed || st.1.cap1.bds50) then
-      match isBds50 m with
-      | some r => ({ st.1 with rollAngle := r.roll, track := r.track, trackAngleRate := r.rate,
-                               grspeed := r.gs, trueAirspeed := r.tas,
-                               bds50Timestamp := some st.1.timestamp, trackSource := chSub5,
-                               trackTimestamp := some st.1.timestamp }, false)
-      | none => st
-    else st
-  let st := if st.2 && (relaxed || st.1.cap1.bds60) then
-      match isBds60 m with
-      | some r => ({ st.1 with heading := r.heading, indicatedAirspeed := r.ias, machRaw := r.mach,
-                               vrate := (if r.baroRate.isSome then r.baroRate else r.ivv),
-                               vrateSource := (if r.baroRate.isSome then chSub6 else chSup1),
-                               headingSource := chSub6,
-                               headingTimestamp := some st.1.timestamp }, false)
-      | none => st
-    else st
-  let st := if st.2 then
-      match isBds44 m with
-      | some me => ({ st.1 with temperature := me.temp,
-                                wind := (if me.wind.isSome then me.wind else st.1.wind),
-                                humidity := me.humidity, turbulence := me.turbulence,
-                                pressure := me.pressure }, false)
-      | none => st
-    else st
+/-- the `if bds == (0, 0) { if let Some(result) = is_bds_1_7(..) {..} }` block; a stage takes and
+    returns (row, register still undecided) -/
+def stage17 (m : Msg) (st : Plane × Bool) : Plane × Bool :=
+  if st.2 then
+    match isBds17 m with
+    | some r => ({ st.1 with cap1 := r }, false)
+    | none => st
+  else st
+
+def stage40 (m : Msg) (relaxed : Bool) (st : Plane × Bool) : Plane × Bool :=
+  if st.2 && (relaxed || st.1.cap1.bds40) then
+    match isBds40 m with
+    | some v => ({ st.1 with selectedAltitude := v.mcp.or v.fms,
+                             targetAltitudeSource := sourceMark v.source,
+                             barometricPressureSetting := v.baro }, false)
+    | none => st
+  else st
+
+def stage50 (m : Msg) (relaxed : Bool) (st : Plane × Bool) : Plane × Bool :=
+  if st.2 && (relaxed || st.1.cap1.bds50) then
+    match isBds50 m with
+    | some r => ({ st.1 with rollAngle := r.roll, track := r.track, trackAngleRate := r.rate,
+                             grspeed := r.gs, trueAirspeed := r.tas,
+                             bds50Timestamp := some st.1.timestamp, trackSource := chSub5,
+                             trackTimestamp := some st.1.timestamp }, false)
+    | none => st
+  else st
+
+def stage60 (m : Msg) (relaxed : Bool) (st : Plane × Bool) : Plane × Bool :=
+  if st.2 && (relaxed || st.1.cap1.bds60) then
+    match isBds60 m with
+    | some r => ({ st.1 with heading := r.heading, indicatedAirspeed := r.ias, machRaw := r.mach,
+                             vrate := (if r.baroRate.isSome then r.baroRate else r.ivv),
+                             vrateSource := (if r.baroRate.isSome then chSub6 else chSup1),
+                             headingSource := chSub6,
+                             headingTimestamp := some st.1.timestamp }, false)
+    | none => st
+  else st
+
+def stage44 (m : Msg) (st : Plane × Bool) : Plane × Bool :=
+  if st.2 then
+    match isBds44 m with
+    | some me => ({ st.1 with temperature := me.temp,
+                              wind := (if me.wind.isSome then me.wind else st.1.wind),
+                              humidity := me.humidity, turbulence := me.turbulence,
+                              pressure := me.pressure }, false)
+    | none => st
+  else st
+
+def stage45 (m : Msg) (st : Plane × Bool) : Plane :=
   if st.2 then
     match isBds45 m with
     | some v => { st.1 with temperature := some v }
     | none => st.1
   else st.1
 
+/-- the two registers recognised by their BDS code -/
+def stageCoded (m : Msg) (p : Plane) : Plane × Bool :=
+  let bds := bdsCode m
+  let p := if bds = (2, 0) then { p with ais := Sq.ais m } else p
+  let p := if bds = (3, 0) then { p with threatEncounter := Sq.threatEncounter m } else p
+  (p, bds = (0, 0))
+
+/-- `update_from_mode_s` -/
+def Plane.updateFromModeS (p : Plane) (m : Msg) (relaxed : Bool) : Plane :=
+  stage45 m (stage44 m (stage60 m relaxed (stage50 m relaxed (stage40 m relaxed (stage17 m (stageCoded m p))))))
+
+/-- the Comm-B gate of `Plane::update` -/
+def commBGate (p : Plane) (df : Nat) (relaxed : Bool) : Bool :=
+  (relaxed || decide (p.cap0 > 3)) && (df = 20 || df = 21)
+
 /-- `Plane::update` -/
 def Plane.update (env : Env) (now : Int) (p : Plane) (m : Msg) (df : Nat) (relaxed : Bool) : Plane :=
-  let p := { p with timestamp := now, lastDf := df }
-  let p := p.updateFromBcast m df
-  let p := if df = 17 ∨ df = 18 then p.updateFromExt env m df else p
-  if (relaxed || decide (p.cap0 > 3)) && (df = 20 || df = 21) then p.updateFromModeS m relaxed else p
+  let p1 := Plane.updateFromBcast { p with timestamp := now, lastDf := df } m df
+  let p2 := if df = 17 ∨ df = 18 then p1.updateFromExt env m df else p1
+  if commBGate p2 df relaxed then p2.updateFromModeS m relaxed else p2
 
 /-- `Plane::from_downlink` -/
 def Plane.fromDownlink (env : Env) (now : Int) (dl : DFRec) (icao : Nat) : Plane :=
